@@ -262,6 +262,9 @@ class SchedFile:
             self.closed = True
             self._f.close()
 
+    def __getattr__(self, name):        # truncate, fileno, readinto, ...: the real (unbuffered) file's business, not a scheduling point
+        return getattr(self.__dict__['_f'], name)
+
     def __enter__(self):
         return self
 
